@@ -115,6 +115,16 @@ def _aligned_windows(st, A, a, B, b):
             st.add_ge(a - b)
 
 
+FLAG_LEAVES = set()
+
+
+def is_flags(t):
+    """Is t a vector of booleans (a constant vector of a boolean, a leaf registered as one, an update of one)?"""
+    while t[0] == "upd" and t[3] == ():
+        t = t[1]
+    return t in FLAG_LEAVES or is_flag_fill(t) is not None
+
+
 def label_of(t):
     """Is t a sequence of labels (user values) rather than naturals?"""
     if t in LABEL_LEAVES:
@@ -296,6 +306,11 @@ def seq_elem(I, st, v, ip=None, label=False):
                     st.add_bound(lf, b)
             return base_elem.with_field(path[0], VSeq(lf))
         return base_elem
+    if ip is not None and is_flags(t):
+        # element of a vector of flags: an unknown boolean that is a function of the vector and the position
+        if t[0] == "upd" and t[3] == () and st.eq(as_poly(t[2]), as_poly(ip)):
+            return thaw(t[4])
+        return VBool(("unk", ("flag", t, as_poly(ip))))
     is_lbl = label or label_of(t)
     if ip is None:
         return placeholder(st, t, "label" if is_lbl else "nat")
